@@ -113,6 +113,12 @@ func runC14(t *testing.T, cases []map[string]interface{}, ev *vEvents) {
 					emit(map[string]interface{}{"ev": "Wait", "trace": ci, "d": vInt(a, "d")})
 					continue
 				}
+				if vStr(a, "op") == "sweep" {
+					// the daemon's periodic clean-up passes by: what the limiter remembers is none of its business
+					w.sweepOnce()
+					emit(map[string]interface{}{"ev": "Sweep", "trace": ci})
+					continue
+				}
 				right := vBool(a, "right")
 				code, _ := totp.GenerateCode(vTOTPSecret, time.Now())
 				if !right {
